@@ -264,7 +264,8 @@ def _case(i):
             res['status'] = 'reject:budget'
             return res
         eol = '\r\n' if rng.random() < 0.1 else '\n'
-        p = C.run_proc([C.HYEONG, 'debug', '--color', 'never', path], (eol.join(script) + eol).encode() if script else b'', cpu=20)
+        last_eol = '' if (script and script[-1].strip() and rng.random() < 0.2) else eol
+        p = C.run_proc([C.HYEONG, 'debug', '--color', 'never', path], (eol.join(script) + last_eol).encode() if script else b'', cpu=20)
         res['hist'] = stats
         info = {'program': text, 'script': script, 'source': name,
                 'replay': "printf '%%s\\n' <script lines> | %s debug --color never FILE" % C.HYEONG}
